@@ -29,7 +29,8 @@ def record_cases(rep, tag, per_logic, orders, extra_jobs=()):
             # the proof itself is search-independent (C09); a raise here comes from building the models of an
             # invalid tableau: no countermodel was delivered
             cases.append({'id': r['id'], 'logic': r['logic'], 'argstr': r['argstr'], 'arg': r['arg'], 'rules': r.get('rules', []),
-                          'models': [], 'nmodels_expected': -1, 'raised': r['raised'].split(':')[0]})
+                          'models': [], 'nmodels_expected': -1, 'raised': r['raised'].split(':')[0],
+                          'open_nodes': r.get('open_nodes', [])})
             continue
         if r['outcome'] != 'invalid' or 'models' not in r:
             continue
@@ -37,7 +38,7 @@ def record_cases(rep, tag, per_logic, orders, extra_jobs=()):
         stats['models'] += len(r['models'])
         cases.append({'id': r['id'] + f"/o{r.get('order', 0)}", 'logic': r['logic'], 'argstr': r['argstr'], 'arg': r['arg'],
                       'rules': r.get('rules', []), 'models': r['models'],
-                      'nmodels_expected': r['final']['state']['nopen'], 'raised': ''})
+                      'nmodels_expected': r['final']['state']['nopen'], 'raised': '', 'open_nodes': []})
     return cases, stats
 
 
